@@ -117,7 +117,7 @@ class World:
             obj = handler(spec)
         except BuildError:
             raise
-        except Exception as e:  # noqa: BLE001 - a raising constructor is an outcome
+        except (Exception, SystemExit) as e:  # noqa: BLE001 - a raising constructor is an outcome
             self.failed[nid] = type(e).__name__
             return None
         self.env[nid] = obj
@@ -401,6 +401,30 @@ class World:
         import autoarray as aa
 
         return aa.Region2D(region=tuple(s["region"]))
+
+    def _b_image_mesh(self, s):
+        import autoarray as aa
+
+        return getattr(aa.image_mesh, s["cls"])(**{k: (tuple(v) if isinstance(v, list) else v) for k, v in s.get("kw", {}).items()})
+
+    def _b_transformer(self, s):
+        import autoarray as aa
+
+        uv = self.own(s["id"], "uv_wavelengths", floats(s["uv"], (-1, 2)))
+        return aa.TransformerDFT(uv_wavelengths=uv, real_space_mask=self.n(s["mask"]), preload_transform=bool(s.get("preload_transform", True)))
+
+    def _b_interferometer(self, s):
+        import autoarray as aa
+
+        uv = self.own(s["id"], "uv_wavelengths", floats(s["uv"], (-1, 2)))
+        kw = {}
+        o = s.get("over")
+        if o is not None:
+            kw["over_sampling"] = aa.OverSamplingDataset(
+                uniform=self._over(o.get("uniform")), non_uniform=self._over(o.get("non_uniform")), pixelization=self._over(o.get("pixelization"))
+            )
+        return aa.Interferometer(data=self.n(s["data"]), noise_map=self.n(s["noise"]), uv_wavelengths=uv, real_space_mask=self.n(s["mask"]),
+                                 transformer_class=aa.TransformerDFT, **kw)
 
     def _b_coord_triangles(self, s):
         from autoarray.structures.triangles.coordinate_array import CoordinateArrayTriangles
